@@ -62,6 +62,9 @@ for line in sys.stdin:
     op, j = cmd["op"], cmd.get("job")
     try:
         if op == "submit":
+            if j in deps:       # submitted again: the dependency of the finished submission is forgotten
+                with tok.dependents as ds:
+                    ds.discard(deps[j])
             d = tok.dependency(cmd["count"])
             d.target = Target(j)
             d.loop = InlineLoop()
